@@ -103,6 +103,12 @@ CHECKS = {
    text="TLC proves RowLocal for the 1x1-convolution and piecewise-coupling image pipelines for all B,C,H,W up to the bound and enumerates every batch composition (every non-empty subset of a 4-row pool in every order, up to 3 rows, batch size one included). Each composition is evaluated on every zoo transform, distribution and flow in evaluation mode - on a model freshly built and loaded for every evaluation, initialised and pristine - and every row is compared with the same row evaluated alone (forward, inverse, log_prob, transform_to_noise; context rows follow their inputs; rows inside and outside the spline tail bounds are mixed).",
    design_ref="DESIGN.md section 4, C12",
    note="float64 1e-9 (BLAS may reorder); pool of 4 rows. " + TRUSTED),
+
+ "C16": dict(
+   technique="TLA+ enumeration of gradient-flow cases (spec/GradFlow.tla: model kind x mode x cache x preceding call x result x leaf; nothing detached by design) model-checked by TLC, plus the cache life-cycle of LinearCache.tla; every case executed on the zoo with central-difference checks of directional derivatives",
+   text="TLC enumerates the cases and the statement that every influencing leaf must receive a gradient in training and evaluation mode, cache off or on, whatever inference call came before. Each case runs on the matching zoo models in float64: back-propagation succeeds, gradients are finite, every parameter that influences the result (decided by central differences) receives a gradient, and directional derivatives with respect to inputs, context and each parameter tensor equal central differences (2e-4). C10's replay additionally compares parameter gradients of cached calls with the uncached twin.",
+   design_ref="DESIGN.md section 4, C16",
+   note="One random direction per leaf; correctness of torch autograd for built-in operators is trusted; UMNN and discrete distributions skipped; kinks avoided except exact zeros for smooth elementwise maps. " + TRUSTED),
 }
 REASONS = {}
 
